@@ -6,12 +6,17 @@ gcov and JaCoCo statements live with their models (Props/C09.lean `C09_text_neve
 `C09_json_never_panics`; Props/C10.lean `C10_always_terminates`) and are re-exported below so that
 this check audits them too. The byte-fold models do one step per input byte by construction,
 which says nothing about the Rust: time and memory of the real readers are *measured* by the
-correspondence run (every case under an address-space and wall-clock limit). What is not covered
-by a theorem: the gcno/gcda binary reader (tied and measured only, see DESIGN.md), and the two
-allocation findings (a BRDA branch number / a JaCoCo cb,mb counter is an allocation size).
+correspondence run (every case under an address-space and wall-clock limit). The gcno/gcda binary
+reader is covered by Props/C14Gcno.lean (`C14_gcno_*`, `C14_gcda_*`, `C14_truncated_gcda*`): for all
+byte strings `Gcno::compute` ends in a value, an error or the known overflow crash, never out of
+fuel (`C14_gcno_bytes_never_crash`, `C14_gcno_bytes_terminate`); a truncated gcda gives an error or
+the state of a prefix of the complete records; record streams and block tables are linear in the
+input. What is not covered by a theorem: the two allocation findings (a BRDA branch number / a
+JaCoCo cb,mb counter is an allocation size) and the running time of the cycle search.
 -/
 import GrcovModel.Lemmas.Lcov
 import GrcovModel.Props.C10
+import GrcovModel.Props.C14Gcno
 namespace Grcov.Props.C14
 open Grcov Grcov.Lcov
 
